@@ -134,7 +134,11 @@ class Kernel:
         self.seam("clock")
         return self.now
 
+    on_sleep = None
+
     def sleep(self, secs):
+        if self.on_sleep is not None:
+            self.on_sleep(secs)
         self.seam("sleep")
         d = int(round(secs * NS))
         if d < 0:
